@@ -77,6 +77,19 @@ func driveSlice(s *shardSet, rng *rand.Rand, thorough bool) ([]string, map[strin
 					w.SetSample(root, rng.Intn(w.Views[root].Len()), w.NextStamp())
 					w.AppendSample(child, w.NextStamp()) // lands in the shared spare capacity
 					w.AppendSample(par, w.NextStamp())
+					// two slices with the same bounds taken back to back (nothing, not even the recorder's projection,
+					// touches the parent in between) are two headers
+					if len(w.Views) < 8 {
+						w.NoObs = true
+						r1 := w.Slice(par, st, en)
+						r2 := w.Slice(par, st, en)
+						w.NoObs = false
+						if r1 == "ok" && r2 == "ok" {
+							w.AppendSample(len(w.Views)-1, w.NextStamp())
+							w.Drop(len(w.Views) - 1)
+							w.Drop(len(w.Views) - 1)
+						}
+					}
 					// a second slice with the SAME bounds is a header of its own; and a slice taken after the parent moved
 					// to new storage windows the new storage
 					if w.Slice(par, st, en) == "ok" && len(w.Views) < 9 {
@@ -529,26 +542,33 @@ func driveChannel(s *shardSet, rng *rand.Rand, thorough bool) ([]string, map[str
 // ---- C13 -----------------------------------------------------------------------------------------
 func driveAlloc(s *shardSet, rng *rand.Rand, thorough bool) ([]string, map[string]int) {
 	types := append(append([]string{}, BuiltinTypes...), NamedTypes...)
-	cs := []int{1, 2, 3, 4, 5, 7, 8, 16, 64}
-	if thorough {
-		cs = nil
-		for c := 1; c <= 64; c++ {
-			cs = append(cs, c)
-		}
+	cs := []int{}
+	for c := 1; c <= 64; c++ {
+		cs = append(cs, c)
 	}
 	budget := 4096
 	if thorough {
 		budget = 65536
 	}
-	for _, ty := range types {
+	for ti, ty := range types {
 		for _, c := range cs {
+			if !thorough && c > 8 && (c+ti)%4 != 0 { // quick: every channel count for a quarter of the types
+				continue
+			}
 			w := s.Next()
 			w.Reset()
+			if c%5 == 0 && ty == KindOf(ty) { // pools of the same element type, channels and capacity exist (C13 speaks of Alloc alone)
+				NewPool(ty, allocator(c, 1, 3)).Get(false)
+				NewPool(ty, allocator(c, 0, 3))
+			}
 			for rep := 0; rep < 3; rep++ {
 				maxK := budget / c
 				k := rng.Intn(maxK + 1)
 				if rep == 0 {
 					k = rng.Intn(6)
+				}
+				if rep == 1 && c%5 == 0 {
+					k = 3
 				}
 				l := rng.Intn(k + 1)
 				switch rng.Intn(4) {
